@@ -1,6 +1,7 @@
 package props
 
 import (
+	"context"
 	"encoding/binary"
 	"encoding/hex"
 	"encoding/json"
@@ -17,9 +18,12 @@ import (
 )
 
 // hostileBytes returns one hostile byte string.
-func hostileBytes(c *core.Ctx, w *nw.World, k int) ([]byte, string) {
+func hostileBytes(c *core.Ctx, w *nw.World, k int, requested bool) ([]byte, string) {
 	t := c.T
 	tip, _ := w.Repo.Header(w.Ctx, w.Repo.Height())
+	if requested && t.Chance(1, 2) {
+		return hostileRequestedBlock(c, tip, k)
+	}
 	hdr := func(bits uint32, ts uint32) *wire.BlockHeader {
 		return &wire.BlockHeader{Version: 1, PrevBlock: *tip.BlockHash(), Timestamp: ts, Bits: bits, Nonce: uint32(k)}
 	}
@@ -144,6 +148,63 @@ func hostileBytes(c *core.Ctx, w *nw.World, k int) ([]byte, string) {
 	}
 }
 
+// c15RequestedHeader is the header of the block the harness requests from the peer (Req runs).
+func c15RequestedHeader(tip *wire.BlockHeader) *wire.BlockHeader {
+	return &wire.BlockHeader{Version: 1, PrevBlock: *tip.BlockHash(), MerkleRoot: model.DoubleSHA([]byte("c15 requested block")),
+		Timestamp: tip.Timestamp + 600, Bits: 0x1d00ffff, Nonce: 99}
+}
+
+// hostileRequestedBlock: a block message carrying the requested header (so the node streams its
+// transactions to the block handler) whose transaction stream is hostile: a transaction that cannot be
+// decoded, a stream that ends early, fewer or more transactions than announced.
+func hostileRequestedBlock(c *core.Ctx, tip *wire.BlockHeader, k int) ([]byte, string) {
+	t := c.T
+	h := c15RequestedHeader(tip)
+	announced := uint64(1 + t.Draw(4))
+	good := t.Draw(int(announced) + 1)
+	var txs []*wire.MsgTx
+	for i := 0; i < good; i++ {
+		txs = append(txs, nw.MakeTx(uint32(1000*k+i), t.Draw(30)))
+	}
+	pl := nw.BlockPayload(h, announced, txs)
+	name := "requested-block:"
+	switch t.Draw(5) {
+	case 0: // a transaction with an absurd input count
+		pl = append(pl, 1, 0, 0, 0, 0xff, 0xff, 0xff, 0xff, 0xff, 0xff, 0xff, 0xff, 0x0f)
+		pl = append(pl, make([]byte, t.Draw(60))...)
+		name += "tx-input-count-huge"
+	case 1: // a transaction whose script length points beyond the message
+		b := nw.TxBytes(nw.MakeTx(uint32(k), 10))
+		b[41] = 0xfd
+		b = append(b[:42], append([]byte{0xff, 0xff}, b[42:]...)...)
+		pl = append(pl, b...)
+		name += "tx-script-length-beyond-payload"
+	case 2: // the stream ends in the middle of a transaction
+		b := nw.TxBytes(nw.MakeTx(uint32(k), 25))
+		pl = append(pl, b[:1+t.Draw(len(b)-1)]...)
+		name += "cut-mid-tx"
+	case 3: // fewer transactions than announced, nothing else
+		name += "fewer-txs-than-announced"
+	default: // random bytes where a transaction should start
+		b := make([]byte, 1+t.Draw(80))
+		t.Bytes(b)
+		for i := range b {
+			if b[i] >= 0xfe {
+				// a 0xfe/0xff varint prefix declares a count or script length of up to 2^64 taken from the
+				// random bytes after it; mid-size values (GBs) are allocated by the dependency (known
+				// findings KF20/KF21) and make the outcome depend on this machine's memory
+				b[i] = 0xfd
+			}
+		}
+		pl = append(pl, b...)
+		name += "random-tx-bytes"
+	}
+	if t.Chance(1, 2) {
+		return nw.FrameExt(wire.CmdBlock, pl, uint64(len(pl))), name + "(ext)"
+	}
+	return nw.Frame(wire.CmdBlock, pl), name
+}
+
 func includeKnown() bool { return os.Getenv("VERIF_INCLUDE_KNOWN") == "1" }
 
 type c15cfg struct {
@@ -151,6 +212,9 @@ type c15cfg struct {
 	Tx    bool   `json:"tx"`
 	Stage int    `json:"stage"`
 	N     int    `json:"n,omitempty"`
+	// Req: once the node is ready a block is requested from the peer (RequestBlock), so that block
+	// messages are streamed through the block handler instead of being skipped
+	Req bool `json:"req,omitempty"`
 }
 
 type c15msg struct {
@@ -172,6 +236,7 @@ func runC15(c *core.Ctx) {
 		}
 	} else {
 		cfg = c15cfg{K: "config", Tx: t.Chance(1, 2), Stage: t.Draw(3), N: 1 + t.Draw(4)}
+		cfg.Req = cfg.Stage == 2 && t.Chance(1, 2)
 	}
 	c.Record(cfg)
 	withTx, stage := cfg.Tx, cfg.Stage
@@ -180,7 +245,7 @@ func runC15(c *core.Ctx) {
 	// (script generation without the system) consumes the tape exactly like the real run.
 	if c.Script == nil {
 		for i := 0; i < cfg.N; i++ {
-			b, name := hostileBytes(c, w, i+1)
+			b, name := hostileBytes(c, w, i+1, cfg.Req)
 			scripted = append(scripted, c15msg{K: "send", Name: name, Hex: hex.EncodeToString(b)})
 		}
 	}
@@ -208,6 +273,21 @@ func runC15(c *core.Ctx) {
 		c.Fail("c15.setup", "not-ready", "the node did not verify against the default scripted peer")
 	}
 	heightBefore := w.Repo.Height()
+	blockTxs, blockHandlerDone := 0, make(chan error, 4)
+	if cfg.Req && p.Node.IsReady() {
+		tip, _ := w.Repo.Header(w.Ctx, w.Repo.Height())
+		hash := *c15RequestedHeader(tip).BlockHash()
+		err := p.Node.RequestBlock(w.Ctx, hash, func(ctx context.Context, header *wire.BlockHeader, txCount uint64, txChannel <-chan *wire.MsgTx) error {
+			for range txChannel {
+				blockTxs++
+			}
+			blockHandlerDone <- nil
+			return nil
+		}, func(context.Context) {})
+		c.Event("block requested from the peer -> %v", err)
+		c.Probe("block-requested")
+		w.Pump()
+	}
 	for i := 0; i < len(scripted) && !p.Returned; i++ {
 		b, _ := hex.DecodeString(scripted[i].Hex)
 		name := scripted[i].Name
@@ -224,6 +304,12 @@ func runC15(c *core.Ctx) {
 		w.Advance(10 * time.Second)
 	}
 	c.Nontrivial()
+	select {
+	case <-blockHandlerDone:
+		c.Probe("requested-block-streamed-to-handler")
+		c.Note("block handler received %d transactions", blockTxs)
+	default:
+	}
 	if !p.Returned {
 		c.Fail("c15.run-returns-after-close", "still-running", "the node's Run had not returned 5 simulated minutes after the peer closed the connection")
 	} else {
@@ -272,6 +358,6 @@ func init() {
 		FaultKinds:   []string{"fragmentation", "delivery-delay", "hostile:random-bytes", "hostile:magic+random", "hostile:bad-checksum", "hostile:length-too-long", "hostile:length-too-short", "hostile:count-huge", "hostile:extmsg-length-absurd", "hostile:headers-bits", "hostile:tx-input-count-huge", "hostile:tx-script-length-beyond-payload", "hostile:truncated", "hostile:block-tx-count-huge", "hostile:command-garbage", "hostile:version-mangled", "hostile:inv-type-garbage", "hostile:flipped-byte"},
 		ProbeNames:   []string{"stage:before-handshake", "stage:during-verification", "stage:ready", "run-returned", "second-connection-ok"},
 		Run:          runC15,
-		QuickSeconds: 20, ThoroughSeconds: 600, MinRuns: 300, BatchSize: 25, RunTimeoutSeconds: 180, DryScript: true,
+		QuickSeconds: 20, ThoroughSeconds: 600, MinRuns: 300, BatchSize: 25, RunTimeoutSeconds: 180, DryScript: true, MemLimitMB: 3072,
 	})
 }
